@@ -761,6 +761,10 @@ Fixpoint ann_ok (F : list funcdef) (G : tyenv) (A : expr) {struct A} : bool :=
     match args with [] => true | a :: r => arg1 v a && go r end in
   let pargsv := fix go (ps : list (str * expr)) : bool :=
     match ps with [] => true | (_, x) :: r => arg1 TAny x && go r end in
+  let elemsz (u : ty) := fix go (es : list expr) : bool :=
+    match es with [] => true | x :: r => ((ann_ok F G x && sty_is G x u) || zero_lit u x) && go r end in
+  let pelemsz (u : ty) := fix go (ps : list (str * expr)) : bool :=
+    match ps with [] => true | (_, x) :: r => ((ann_ok F G x && sty_is G x u) || zero_lit u x) && go r end in
   match A with
   | ENum _ | EStr _ | EBool _ => true
   | EVar n t => negb (str_eqb n underscore) && opt_ty_eqb (slookup n G) t && ty_small t
@@ -768,13 +772,17 @@ Fixpoint ann_ok (F : list funcdef) (G : tyenv) (A : expr) {struct A} : bool :=
   | EArr t es =>
       match es, t with
       | [], TEmptyArr => true
-      | _ :: _, TArr u => (elems u es || (is_any u && argsv TAny es && sty_is G A t)) && ty_small t
+      | _ :: _, TArr u =>
+          (elems u es || (is_any u && argsv TAny es && sty_is G A t) || (ty_decl u && elemsz u es && sty_is G A t))
+          && ty_small t
       | _, _ => false
       end
   | EMap t ps =>
       match ps, t with
       | [], TEmptyMap => true
-      | _ :: _, TMap u => (pelems u ps || (is_any u && pargsv ps && sty_is G A t)) && ty_small t && keys_nodup (map fst ps)
+      | _ :: _, TMap u =>
+          (pelems u ps || (is_any u && pargsv ps && sty_is G A t) || (ty_decl u && pelemsz u ps && sty_is G A t))
+          && ty_small t && keys_nodup (map fst ps)
       | _, _ => false
       end
   | ECall name t args =>
@@ -806,6 +814,11 @@ Section AnnLists.
       match es with [] => true | x :: r => ann_ok F G x && sty_is G x u && elems_ann r end.
     Fixpoint pelems_ann (ps : list (str * expr)) : bool :=
       match ps with [] => true | (_, x) :: r => ann_ok F G x && sty_is G x u && pelems_ann r end.
+    (* elements that may be the empty literal retyped to the element type:  [[1] []]  *)
+    Fixpoint elemsz_ann (es : list expr) : bool :=
+      match es with [] => true | x :: r => ((ann_ok F G x && sty_is G x u) || zero_lit u x) && elemsz_ann r end.
+    Fixpoint pelemsz_ann (ps : list (str * expr)) : bool :=
+      match ps with [] => true | (_, x) :: r => ((ann_ok F G x && sty_is G x u) || zero_lit u x) && pelemsz_ann r end.
   End Elems.
   Definition bound_ann (o : option expr) : bool := match o with Some x => ann_ok F G x | None => true end.
 End AnnLists.
@@ -814,7 +827,8 @@ Lemma ann_ok_EArr F G t es : ann_ok F G (EArr t es) =
       match es, t with
       | [], TEmptyArr => true
       | _ :: _, TArr u =>
-          (elems_ann F G u es || (is_any u && vargs_ann (ann_ok F G) G TAny es && sty_is G (EArr t es) t)) && ty_small t
+          (elems_ann F G u es || (is_any u && vargs_ann (ann_ok F G) G TAny es && sty_is G (EArr t es) t)
+           || (ty_decl u && elemsz_ann F G u es && sty_is G (EArr t es) t)) && ty_small t
       | _, _ => false
       end.
 Proof. destruct es, t; reflexivity. Qed.
@@ -822,7 +836,8 @@ Lemma ann_ok_EMap F G t ps : ann_ok F G (EMap t ps) =
       match ps, t with
       | [], TEmptyMap => true
       | _ :: _, TMap u =>
-          (pelems_ann F G u ps || (is_any u && pvargs_ann (ann_ok F G) G ps && sty_is G (EMap t ps) t))
+          (pelems_ann F G u ps || (is_any u && pvargs_ann (ann_ok F G) G ps && sty_is G (EMap t ps) t)
+           || (ty_decl u && pelemsz_ann F G u ps && sty_is G (EMap t ps) t))
           && ty_small t && keys_nodup (map fst ps)
       | _, _ => false
       end.
@@ -1044,6 +1059,32 @@ Lemma spec_tc_ESlice l s e' : TypesSpec.spec_tc (TypesSyntax.ESlice l s e') =
   end.
 Proof. reflexivity. Qed.
 
+Lemma elemsz_conv F G u : forall es, Forall (ann_typed F G) es -> ty_decl u = true -> elemsz_ann F G u es = true ->
+  exists ts, etys F G es = Some ts /\ forallb (ty_eqb u) ts = true.
+Proof.
+  induction 1 as [|x es Hx _ IH]; intros Hd H.
+  - exists []. auto.
+  - cbn [elemsz_ann] in H. apply andb_true_iff in H as [H1 H2]. destruct (IH Hd H2) as (ts & Hts & Hall).
+    exists (u :: ts). cbn [etys].
+    assert (ety F G x = Some u) as ->.
+    { apply orb_true_iff in H1 as [H1|H1]; [|apply zero_lit_ety; assumption].
+      apply andb_true_iff in H1 as [A B]. exact (ann_typed_by_sty F G x u Hx A B). }
+    rewrite Hts. cbn [forallb]. rewrite ty_eqb_same, Hall. auto.
+Qed.
+
+Lemma pelemsz_conv F G u : forall ps, Forall (fun p : str * expr => ann_typed F G (snd p)) ps -> ty_decl u = true ->
+  pelemsz_ann F G u ps = true -> exists ts, etyps F G ps = Some ts /\ forallb (ty_eqb u) ts = true.
+Proof.
+  induction 1 as [|[k x] ps Hx _ IH]; intros Hd H.
+  - exists []. auto.
+  - cbn [pelemsz_ann] in H. apply andb_true_iff in H as [H1 H2]. destruct (IH Hd H2) as (ts & Hts & Hall).
+    exists (u :: ts). cbn [etyps]. simpl in Hx.
+    assert (ety F G x = Some u) as ->.
+    { apply orb_true_iff in H1 as [H1|H1]; [|apply zero_lit_ety; assumption].
+      apply andb_true_iff in H1 as [A B]. exact (ann_typed_by_sty F G x u Hx A B). }
+    rewrite Hts. cbn [forallb]. rewrite ty_eqb_same, Hall. auto.
+Qed.
+
 Lemma pvargs_conv F G : forall ps,
   Forall (fun p : str * expr => arg_typed F G (snd p)) ps -> pvargs_ann (ann_ok F G) G ps = true ->
   exists ts, etyps F G ps = Some ts /\ forallb (arg_ok TAny) ts = true.
@@ -1086,6 +1127,14 @@ Proof.
     + destruct t; try discriminate. simpl in He. inversion He; subst. inversion Hs; subst. reflexivity.
     + destruct t; try discriminate. apply andb_true_iff in Ha as [Ha1 Ha2].
       apply orb_true_iff in Ha1 as [Ha1|Ha1]; cycle 1.
+      { (* elements that may be the empty literal retyped to the element type *)
+        apply andb_true_iff in Ha1 as [Ha1 Hst]. apply andb_true_iff in Ha1 as [Hd Hv].
+        destruct (elemsz_conv F G t (x :: es) HF Hd Hv) as (ts & Hts & Hok).
+        rewrite Hts, Hok. rewrite <- (sty_is_eq G _ _ e k st Hst He0 Hs).
+        unfold ty_ann. cbn [ty_value]. unfold ty_decl in Hd. apply andb_true_iff in Hd as [Hp _].
+        assert (ty_value t = true) as -> by (clear -Hp; induction t; simpl in *; auto; discriminate).
+        rewrite Ha2. reflexivity. }
+      apply orb_true_iff in Ha1 as [Ha1|Ha1]; cycle 1.
       { (* a literal of mixed element types: []any, every element wrapped *)
         apply andb_true_iff in Ha1 as [Ha1 Hst]. apply andb_true_iff in Ha1 as [Hany Hv].
         destruct t; try discriminate.
@@ -1107,6 +1156,14 @@ Proof.
     destruct ps as [|p ps].
     + destruct t; try discriminate. simpl in He. inversion He; subst. inversion Hs; subst. reflexivity.
     + destruct t; try discriminate. apply andb_true_iff in Ha as [Ha Ha3]. apply andb_true_iff in Ha as [Ha1 Ha2].
+      apply orb_true_iff in Ha1 as [Ha1|Ha1]; cycle 1.
+      { (* values that may be the empty literal retyped to the value type *)
+        apply andb_true_iff in Ha1 as [Ha1 Hst]. apply andb_true_iff in Ha1 as [Hd Hv].
+        destruct (pelemsz_conv F G t (p :: ps) HF Hd Hv) as (ts & Hts & Hok).
+        rewrite Hts, Hok. rewrite <- (sty_is_eq G _ _ e k st Hst He0 Hs).
+        unfold ty_ann. cbn [ty_value]. unfold ty_decl in Hd. apply andb_true_iff in Hd as [Hp _].
+        assert (ty_value t = true) as -> by (clear -Hp; induction t; simpl in *; auto; discriminate).
+        rewrite Ha2, Ha3. reflexivity. }
       apply orb_true_iff in Ha1 as [Ha1|Ha1]; cycle 1.
       { (* a map literal of mixed value types: {}any, every value wrapped *)
         apply andb_true_iff in Ha1 as [Ha1 Hst]. apply andb_true_iff in Ha1 as [Hany Hv].
@@ -1434,6 +1491,232 @@ Proof.
   - destruct s; simpl in *; auto; discriminate.
 Qed.
 
+(* ---------- converted literals: the tree wrapAny builds for a constant in a slot of another type ---------- *)
+(* [conv F G t A]: A is a tree of slot type t -- either an expression of exactly that type carrying the
+   specification's types, or the conversion of a composite literal: the literal (and the
+   concatenations, repetitions, groups and slices of literals) retyped t with every element converted
+   to the element type; an element converted to any is wrapped, the wrapper recording the type the
+   value has on its own *)
+Definition is_arr (t : ty) : bool := match t with TArr _ => true | _ => false end.
+
+Fixpoint conv (F : list funcdef) (G : tyenv) (t : ty) (A : expr) {struct A} : bool :=
+  let all (u : ty) := fix go (es : list expr) : bool :=
+    match es with [] => true | x :: r => conv F G u x && go r end in
+  let allp (u : ty) := fix go (ps : list (str * expr)) : bool :=
+    match ps with [] => true | (_, x) :: r => conv F G u x && go r end in
+  let bnd (o : option expr) : bool :=
+    match o with Some x => ann_ok F G x && sty_is G x TNum | None => true end in
+  (ann_ok F G A && sty_is G A t && ty_small t)
+  || match A with
+     | EAny a' t' => is_any t && negb (is_any t') && ty_decl t' && conv F G t' a'
+     | EArr t0 es => ty_eqb t0 t && ty_decl t && match t with TArr u => all u es | _ => false end
+     | EMap t0 ps =>
+         ty_eqb t0 t && ty_decl t && match t with TMap u => allp u ps && keys_nodup (map fst ps) | _ => false end
+     | EBin BPlus t0 l r => ty_eqb t0 t && ty_decl t && is_arr t && conv F G t l && conv F G t r
+     | EBin BAsterisk t0 l r =>
+         ty_eqb t0 t && ty_decl t && is_arr t && conv F G t l && ann_ok F G r && sty_is G r TNum
+     | EGroup a => conv F G t a
+     | ESlice t0 l lo hi => ty_eqb t0 t && ty_decl t && is_arr t && conv F G t l && bnd lo && bnd hi
+     | _ => false
+     end.
+
+Section ConvLists.
+  Context (F : list funcdef) (G : tyenv) (u : ty).
+  Fixpoint convs (es : list expr) : bool :=
+    match es with [] => true | x :: r => conv F G u x && convs r end.
+  Fixpoint convp (ps : list (str * expr)) : bool :=
+    match ps with [] => true | (_, x) :: r => conv F G u x && convp r end.
+End ConvLists.
+Definition bnd_ann (F : list funcdef) (G : tyenv) (o : option expr) : bool :=
+  match o with Some x => ann_ok F G x && sty_is G x TNum | None => true end.
+
+Definition conv_struct (F : list funcdef) (G : tyenv) (t : ty) (A : expr) : bool :=
+  match A with
+  | EAny a' t' => is_any t && negb (is_any t') && ty_decl t' && conv F G t' a'
+  | EArr t0 es => ty_eqb t0 t && ty_decl t && match t with TArr u => convs F G u es | _ => false end
+  | EMap t0 ps =>
+      ty_eqb t0 t && ty_decl t && match t with TMap u => convp F G u ps && keys_nodup (map fst ps) | _ => false end
+  | EBin BPlus t0 l r => ty_eqb t0 t && ty_decl t && is_arr t && conv F G t l && conv F G t r
+  | EBin BAsterisk t0 l r =>
+      ty_eqb t0 t && ty_decl t && is_arr t && conv F G t l && ann_ok F G r && sty_is G r TNum
+  | EGroup a => conv F G t a
+  | ESlice t0 l lo hi => ty_eqb t0 t && ty_decl t && is_arr t && conv F G t l && bnd_ann F G lo && bnd_ann F G hi
+  | _ => false
+  end.
+
+Lemma conv_eq F G t A : conv F G t A = (ann_ok F G A && sty_is G A t && ty_small t) || conv_struct F G t A.
+Proof. destruct A; reflexivity. Qed.
+
+Lemma convs_etys F G u : forall es, Forall (fun x => forall t, conv F G t x = true -> ety F G x = Some t) es ->
+  convs F G u es = true -> exists ts, etys F G es = Some ts /\ forallb (ty_eqb u) ts = true.
+Proof.
+  induction 1 as [|x es Hx _ IH]; intros H.
+  - exists []. auto.
+  - cbn [convs] in H. apply andb_true_iff in H as [H1 H2]. destruct (IH H2) as (ts & Hts & Hall).
+    exists (u :: ts). cbn [etys]. rewrite (Hx u H1), Hts. cbn [forallb]. rewrite ty_eqb_same, Hall. auto.
+Qed.
+
+Lemma convp_etyps F G u : forall ps,
+  Forall (fun p : str * expr => forall t, conv F G t (snd p) = true -> ety F G (snd p) = Some t) ps ->
+  convp F G u ps = true -> exists ts, etyps F G ps = Some ts /\ forallb (ty_eqb u) ts = true.
+Proof.
+  induction 1 as [|[k x] ps Hx _ IH]; intros H.
+  - exists []. auto.
+  - cbn [convp] in H. apply andb_true_iff in H as [H1 H2]. destruct (IH H2) as (ts & Hts & Hall).
+    exists (u :: ts). cbn [etyps]. simpl in Hx. rewrite (Hx u H1), Hts. cbn [forallb]. rewrite ty_eqb_same, Hall. auto.
+Qed.
+
+Lemma bnd_etyo F G o : bnd_ann F G o = true -> etyo F G o = true.
+Proof.
+  destruct o as [x|]; simpl; auto. intros H. apply andb_true_iff in H as [H1 H2].
+  rewrite (ann_typed_by_sty F G x TNum (proj1 (spec_to_static F G x)) H1 H2). apply ty_eqb_same.
+Qed.
+
+(* a converted tree is Static-typed with the slot's type *)
+Theorem conv_ety F G : forall A t, conv F G t A = true -> ety F G A = Some t.
+Proof.
+  induction A using expr_ind'; intros tz Hcv; rewrite conv_eq in Hcv; apply orb_true_iff in Hcv as [Hcv|Hcv];
+    try (apply andb_true_iff in Hcv as [Hcv _]; apply andb_true_iff in Hcv as [Ha Hs];
+         exact (ann_typed_by_sty F G _ tz (proj1 (spec_to_static F G _)) Ha Hs));
+    try discriminate Hcv; cbn [conv_struct] in Hcv.
+  - (* wrapped into any *)
+    apply andb_true_iff in Hcv as [Hcv Hc]. apply andb_true_iff in Hcv as [Hcv Hd]. apply andb_true_iff in Hcv as [Hany Hn].
+    destruct tz; try discriminate. cbn [ety]. rewrite (IHA t Hc), (ty_decl_ann t Hd), Hn. simpl. rewrite ty_eqb_same. reflexivity.
+  - (* array literal *)
+    apply andb_true_iff in Hcv as [Hcv Hc]. apply andb_true_iff in Hcv as [He Hd]. apply ty_eqb_true in He. subst t.
+    destruct tz; try discriminate. rewrite ety_EArr. rewrite (ty_decl_ann _ Hd).
+    destruct es as [|x es]; [reflexivity|].
+    destruct (convs_etys F G tz (x :: es) H Hc) as (ts & -> & ->). reflexivity.
+  - (* map literal *)
+    apply andb_true_iff in Hcv as [Hcv Hc]. apply andb_true_iff in Hcv as [He Hd]. apply ty_eqb_true in He. subst t.
+    destruct tz; try discriminate. apply andb_true_iff in Hc as [Hc Hk]. rewrite ety_EMap. rewrite (ty_decl_ann _ Hd).
+    destruct ps as [|p ps]; [reflexivity|].
+    destruct (convp_etyps F G tz (p :: ps) H Hc) as (ts & -> & ->). rewrite Hk. reflexivity.
+  - (* concatenation / repetition *)
+    destruct op; try discriminate.
+    + apply andb_true_iff in Hcv as [Hcv Hr]. apply andb_true_iff in Hcv as [Hcv Hl]. apply andb_true_iff in Hcv as [Hcv Harr].
+      apply andb_true_iff in Hcv as [He Hd]. apply ty_eqb_true in He. subst t.
+      cbn [ety]. rewrite (IHA1 tz Hl), (IHA2 tz Hr), (ty_decl_ann _ Hd).
+      destruct tz; try discriminate. simpl. unfold opt_ty_eqb. simpl. rewrite ?ty_eqb_same. reflexivity.
+    + apply andb_true_iff in Hcv as [Hcv Hs]. apply andb_true_iff in Hcv as [Hcv Ha]. apply andb_true_iff in Hcv as [Hcv Hl].
+      apply andb_true_iff in Hcv as [Hcv Harr]. apply andb_true_iff in Hcv as [He Hd]. apply ty_eqb_true in He. subst t.
+      cbn [ety]. rewrite (IHA1 tz Hl), (ann_typed_by_sty F G A2 TNum (proj1 (spec_to_static F G A2)) Ha Hs), (ty_decl_ann _ Hd).
+      destruct tz; try discriminate. simpl. unfold opt_ty_eqb. simpl. rewrite ?ty_eqb_same. reflexivity.
+  - (* slice *)
+    apply andb_true_iff in Hcv as [Hcv Hhi]. apply andb_true_iff in Hcv as [Hcv Hlo]. apply andb_true_iff in Hcv as [Hcv Hl].
+    apply andb_true_iff in Hcv as [Hcv Harr]. apply andb_true_iff in Hcv as [He Hd]. apply ty_eqb_true in He. subst t.
+    rewrite ety_ESlice, (IHA tz Hl), (bnd_etyo _ _ _ Hlo), (bnd_etyo _ _ _ Hhi).
+    destruct tz; try discriminate. rewrite ty_eqb_same. reflexivity.
+  - (* group *)
+    cbn [ety]. apply IHA. exact Hcv.
+Qed.
+
+Lemma conv_ty_ann F G : forall A t, conv F G t A = true -> ty_ann t = true.
+Proof.
+  induction A using expr_ind'; intros tz Hcv; rewrite conv_eq in Hcv; apply orb_true_iff in Hcv as [Hcv|Hcv];
+    try (apply andb_true_iff in Hcv as [Hcv Hsm]; apply andb_true_iff in Hcv as [_ Hs];
+         destruct (sty_is_inv _ _ _ Hs) as (e' & k' & s' & _ & _ & ->); unfold ty_ann; rewrite ty_value_ty_of, Hsm; reflexivity);
+    try discriminate Hcv; cbn [conv_struct] in Hcv.
+  - apply andb_true_iff in Hcv as [Hcv _]. apply andb_true_iff in Hcv as [Hcv _]. apply andb_true_iff in Hcv as [Hany _].
+    destruct tz; try discriminate. reflexivity.
+  - apply andb_true_iff in Hcv as [Hcv _]. apply andb_true_iff in Hcv as [_ Hd]. apply ty_decl_ann; exact Hd.
+  - apply andb_true_iff in Hcv as [Hcv _]. apply andb_true_iff in Hcv as [_ Hd]. apply ty_decl_ann; exact Hd.
+  - destruct op; try discriminate.
+    + apply andb_true_iff in Hcv as [Hcv _]. apply andb_true_iff in Hcv as [Hcv _]. apply andb_true_iff in Hcv as [Hcv _].
+      apply andb_true_iff in Hcv as [_ Hd]. apply ty_decl_ann; exact Hd.
+    + apply andb_true_iff in Hcv as [Hcv _]. apply andb_true_iff in Hcv as [Hcv _]. apply andb_true_iff in Hcv as [Hcv _].
+      apply andb_true_iff in Hcv as [Hcv _]. apply andb_true_iff in Hcv as [_ Hd]. apply ty_decl_ann; exact Hd.
+  - apply andb_true_iff in Hcv as [Hcv _]. apply andb_true_iff in Hcv as [Hcv _]. apply andb_true_iff in Hcv as [Hcv _].
+    apply andb_true_iff in Hcv as [Hcv _]. apply andb_true_iff in Hcv as [_ Hd]. apply ty_decl_ann; exact Hd.
+  - apply IHA. exact Hcv.
+Qed.
+
+(* a converted value in a slot: the SPECIFICATION accepts the source expression in a slot of that type
+   (and, stored into any, shows the type the wrapper records), and the tree is its conversion *)
+Definition spec_slot (G : tyenv) (t : ty) (A : expr) : bool :=
+  match erase G A, sty_of t with
+  | Some e, Some st =>
+      match TypesSpec.spec_check (TypesSyntax.CAssign st) e with
+      | TypesSpec.SAccept _ shown =>
+          match t, A with TAny, EAny _ t' => ty_eqb (ty_of shown) t' | _, _ => true end
+      | TypesSpec.SReject => false
+      end
+  | _, _ => false
+  end.
+
+Definition cval (F : list funcdef) (G : tyenv) (t : ty) (A : expr) : bool := spec_slot G t A && conv F G t A.
+
+Lemma cval_ety F G t A : cval F G t A = true -> ety F G A = Some t.
+Proof. unfold cval. intros H. apply andb_true_iff in H as [_ H]. apply conv_ety; exact H. Qed.
+
+Lemma cval_spec_accepts F G t A : cval F G t A = true ->
+  exists e st, erase G A = Some e /\ sty_of t = Some st /\
+    exists shown, TypesSpec.spec_check (TypesSyntax.CAssign st) e = TypesSpec.SAccept st shown.
+Proof.
+  unfold cval, spec_slot. intros H. apply andb_true_iff in H as [H _].
+  destruct (erase G A) as [e|]; [|discriminate]. destruct (sty_of t) as [st|]; [|discriminate].
+  exists e, st. split; [reflexivity|]. split; [reflexivity|].
+  unfold TypesSpec.spec_check in *. unfold TypesSpec.spec_assign in *.
+  destruct (TypesSpec.spec_tc e) as [[k s]|]; [|discriminate].
+  destruct (TypesSpec.assignable_b k st s); [eauto|discriminate].
+Qed.
+
+(* arguments of a call statement: as [arg_ann], or a converted value *)
+Definition carg (F : list funcdef) (G : tyenv) (p : ty) (a : expr) : bool :=
+  arg_ann (ann_ok F G) G p a || match p with TGenArr | TGenMap => false | _ => cval F G p a end.
+Fixpoint cargs (F : list funcdef) (G : tyenv) (ps : list ty) (args : list expr) {struct args} : bool :=
+  match ps, args with
+  | [], [] => true
+  | p :: ps', a :: args' => carg F G p a && cargs F G ps' args'
+  | _, _ => false
+  end.
+Fixpoint cvargs (F : list funcdef) (G : tyenv) (v : ty) (args : list expr) : bool :=
+  match args with [] => true | a :: r => carg F G v a && cvargs F G v r end.
+Definition sig_cv (F : list funcdef) (G : tyenv) (sg : fsig) (args : list expr) : bool :=
+  match fs_var sg with
+  | Some v => match fs_params sg with [] => cvargs F G v args | _ => false end
+  | None => cargs F G (fs_params sg) args
+  end.
+
+Lemma carg_ok F G p a : carg F G p a = true -> exists ta, ety F G a = Some ta /\ arg_ok p ta = true.
+Proof.
+  unfold carg. intros H. apply orb_true_iff in H as [H|H]; [exact (arg_conv F G p a (spec_to_static F G a) H)|].
+  assert (Hc : cval F G p a = true) by (destruct p; try discriminate; exact H).
+  exists p. split; [apply cval_ety; exact Hc|].
+  unfold cval in Hc. apply andb_true_iff in Hc as [_ Hc]. pose proof (conv_ty_ann F G a p Hc) as Ha.
+  unfold arg_ok. destruct p; try discriminate H; rewrite ty_eqb_same, Ha; reflexivity.
+Qed.
+
+Lemma cargs_ok F G : forall args ps, cargs F G ps args = true ->
+  exists ts, etys F G args = Some ts /\ args_ok ps None ts = true.
+Proof.
+  induction args as [|a args IH]; intros ps Ha; destruct ps as [|p ps]; simpl in Ha; try discriminate.
+  - exists []. auto.
+  - apply andb_true_iff in Ha as [Ha1 Ha2].
+    destruct (carg_ok F G p a Ha1) as (ta & Hta & Hok). destruct (IH ps Ha2) as (ts & Hts & Hoks).
+    exists (ta :: ts). cbn [etys]. rewrite Hta, Hts. simpl. rewrite Hok, Hoks. auto.
+Qed.
+
+Lemma cvargs_ok F G v : forall args, cvargs F G v args = true ->
+  exists ts, etys F G args = Some ts /\ forallb (arg_ok v) ts = true.
+Proof.
+  induction args as [|a args IH]; intros Ha; simpl in Ha.
+  - exists []. auto.
+  - apply andb_true_iff in Ha as [Ha1 Ha2].
+    destruct (carg_ok F G v a Ha1) as (ta & Hta & Hok). destruct (IH Ha2) as (ts & Hts & Hoks).
+    exists (ta :: ts). cbn [etys]. rewrite Hta, Hts. split; [reflexivity|]. cbn [forallb]. rewrite Hok, Hoks. reflexivity.
+Qed.
+
+Lemma sig_cv_call F G name sg args :
+  lookup_sig F name = Some sg -> sig_cv F G sg args = true -> call_ty F G name args = Some (fs_ret sg).
+Proof.
+  intros Hl Ha. unfold call_ty. rewrite Hl. unfold sig_cv in Ha. unfold sig_args_ok.
+  destruct (fs_var sg) as [v|].
+  - destruct (fs_params sg); [|discriminate].
+    destruct (cvargs_ok F G v args Ha) as (ts & -> & Hok). rewrite Hok. reflexivity.
+  - destruct (cargs_ok F G args (fs_params sg) Ha) as (ts & -> & Hok). rewrite Hok. reflexivity.
+Qed.
+
 (* ---------- the statement checker driven by the specification's rules ---------- *)
 Definition sis (F : list funcdef) (G : tyenv) (e : expr) (t : ty) : bool := ann_ok F G e && sty_is G e t.
 Definition siso (F : list funcdef) (G : tyenv) (o : option expr) (t : ty) : bool :=
@@ -1447,12 +1730,14 @@ Qed.
 
 (* a value slot: [sval], or the empty literal retyped to the slot's type ( x = []  with x:[]num ) *)
 Definition sval0 (F : list funcdef) (G : tyenv) (t : ty) (e : expr) : bool :=
-  sval F G t e || (ty_decl t && zero_lit t e).
+  sval F G t e || (ty_decl t && zero_lit t e) || (ty_value t && cval F G t e).
 
 Lemma sval0_ety F G t e : sval0 F G t e = true -> ety F G e = Some t.
 Proof.
-  unfold sval0. intros H. apply orb_true_iff in H as [H|H]; [apply sval_ety; exact H|].
-  apply andb_true_iff in H as [Hd Hz]. apply zero_lit_ety; assumption.
+  unfold sval0. intros H. apply orb_true_iff in H as [H|H].
+  - apply orb_true_iff in H as [H|H]; [apply sval_ety; exact H|].
+    apply andb_true_iff in H as [Hd Hz]. apply zero_lit_ety; assumption.
+  - apply andb_true_iff in H as [_ H]. apply cval_ety; exact H.
 Qed.
 
 Fixpoint swt_stmt (F : list funcdef) (ret : option ty) (inloop : bool) (G : tyenv) (s : stmt) {struct s}
@@ -1478,7 +1763,7 @@ Fixpoint swt_stmt (F : list funcdef) (ret : option ty) (inloop : bool) (G : tyen
       end
   | SCallStmt name args =>
       match lookup_sig F name with
-      | Some sg => if sig_ann (ann_ok F G) G sg args then Some G else None
+      | Some sg => if sig_cv F G sg args then Some G else None
       | None => None
       end
   | SReturn None => match ret with Some TNone => Some G | _ => None end
@@ -1703,8 +1988,8 @@ Proof.
   - (* call statement *)
     cbn [swt_stmt] in H. cbn [wt_stmt].
     destruct (lookup_sig F n) as [sg|] eqn:El; [|discriminate].
-    destruct (sig_ann (ann_ok F G) G sg a) eqn:Ea; [|discriminate].
-    rewrite (sig_ann_call F G n sg a El Ea). exact H.
+    destruct (sig_cv F G sg a) eqn:Ea; [|discriminate].
+    rewrite (sig_cv_call F G n sg a El Ea). exact H.
   - (* return *)
     cbn [swt_stmt] in H. cbn [wt_stmt]. destruct e as [e|]; [|exact H].
     destruct ret as [t|]; [|discriminate].
